@@ -469,7 +469,7 @@ func runConc(w *tracelog.Writer, seed int64, rounds, gor, per int) error {
 
 func Main(args []string) error {
 	fs := flag.NewFlagSet("store", flag.ContinueOnError)
-	mode := fs.String("mode", "seq", "seq|recycle|conc|crash|gated")
+	mode := fs.String("mode", "seq", "seq|recycle|conc|crash|gated|torn")
 	out := fs.String("out", "trace.ndjson", "trace output")
 	in := fs.String("in", "", "generated cases (ndjson)")
 	seed := fs.Int64("seed", 1, "seed")
@@ -481,6 +481,7 @@ func Main(args []string) error {
 	per := fs.Int("per", 20, "puts per goroutine and phase (conc)")
 	traffic := fs.Int("traffic", 20, "MB of unrelated traffic per round (recycle)")
 	stride := fs.Int("stride", 7, "crash-point stride (crash)")
+	window := fs.Int("window", 500, "bytes at the end of the log cut one by one (torn)")
 	if err := fs.Parse(args); err != nil {
 		return err
 	}
@@ -501,6 +502,8 @@ func Main(args []string) error {
 		return runCrash(w, *seed, *traces, *ops, *stride)
 	case "gated":
 		return runGated(w, *in, *seed)
+	case "torn":
+		return runTorn(w, *seed, *traces, *ops, *window)
 	}
 	return fmt.Errorf("unknown mode %q", *mode)
 }
